@@ -33,7 +33,7 @@ def infix_language(d, sp, m):
     return determinize(n, start, finals, 255).minimize()
 
 
-def run_property(run, pid, owner_pred, floor, what):
+def run_property(run, pid, owner_pred, floor, what, key_pred=None):
     F = facts.load('iref_core', 'all', 'full')
     P = mir.Program(F)
     scratch = Run(pid + '-sites', run.tier, '__none__')
@@ -43,7 +43,7 @@ def run_property(run, pid, owner_pred, floor, what):
         b = P.body(fn)
         if b and owner_pred_fn(fn, owner_pred):
             run.violation(f'wiring|{fn}', f'{P.where(b)} {fn}: {why}')
-    keys = sorted(k for k in ob if owner_pred(k[0]))
+    keys = sorted(k for k in ob if owner_pred(k[0]) and (key_pred is None or key_pred(k)))
     run.cov['obligations_listed'] = len(keys)
     if len(keys) < floor:
         run.violation('floor|obligations', f'only {len(keys)} (owner, scanner, projection, component) obligations were extracted from the accessors ({floor} confirmed on the pinned tree): an accessor no longer slices a scanner range, or the wiring is not recognised')
